@@ -22,9 +22,10 @@ const (
 	BodyNone      = 0
 	BodyGetBody   = 1 // body with GetBody
 	BodyNoGetBody = 2 // body without GetBody
+	BodyUnknown   = 3 // body without GetBody whose length is not known (ContentLength 0 with a non-nil Body, as http.NewRequest makes it for any reader of its own)
 )
 
-var BodyNames = []string{"no-body", "body+getbody", "body-without-getbody"}
+var BodyNames = []string{"no-body", "body+getbody", "body-without-getbody", "body-of-unknown-length"}
 
 // CallSpec describes one harness call through the auth transport.
 type CallSpec struct {
@@ -162,6 +163,9 @@ func (w *World) Do(tr http.RoundTripper, spec CallSpec) *CallResult {
 		bodies = append(bodies, orig)
 		req.Body = orig
 		req.ContentLength = int64(len(payload))
+		if spec.Body == BodyUnknown {
+			req.ContentLength = 0
+		}
 		if spec.Body == BodyGetBody {
 			n := 0
 			req.GetBody = func() (io.ReadCloser, error) {
